@@ -1,6 +1,7 @@
 package main
 
 import (
+	"encoding/json"
 	"fmt"
 
 	"github.com/iden3/go-schema-processor/v2/merklize"
@@ -148,11 +149,58 @@ func emitDocQ(out *Out, g *DocGen, root *ANode, p *Presentation, hs HSpec, maxQ 
 	out.Emit(c)
 }
 
+// two top-level nodes of the same type in one @graph array: their fields have the same paths. Such a document cannot be
+// merklized (two leaves would need one key); if it is accepted all the same, every leaf must still be provable with the
+// value handed out - which docImpl checks (map size == entries == leaves) together with the queries.
+func emitCollisionDoc(out *Out, g *DocGen, r *Rng, hs HSpec) {
+	a := g.node(g.sch.Root, 0, true)
+	b := g.node(g.sch.Root, 0, true)
+	p := plainPresentation(r)
+	p.ctxMode = 1
+	var ja, jb map[string]any
+	if json.Unmarshal(g.Render(a, p), &ja) != nil || json.Unmarshal(g.Render(b, p), &jb) != nil {
+		return
+	}
+	ctx := ja["@context"]
+	delete(ja, "@context")
+	delete(jb, "@context")
+	doc, _ := json.Marshal(map[string]any{"@context": ctx, "@graph": []any{ja, jb}})
+	loader := &mapLoader{docs: map[string][]byte{g.sch.URL: g.ContextDoc()}}
+	c := Case{Op: "mz.doc", In: J{"doc": string(doc)}, Tags: []string{"shape:colliding-top-level-nodes", "h:" + hs.Name}, NT: true}
+	setCurrent(out, &c)
+	var queries [][]interface{}
+	if ds, err := normalize(doc, loader, true); err == nil {
+		if ents, err := merklize.EntriesFromRDFWithHasher(ds, hs.H); err == nil {
+			queries = queriesFor(ents, r, 20)
+		}
+	}
+	impl, run, dsJ, canon, why := docImpl(doc, hs, loader, true, queries)
+	if run.Err == nil {
+		// accepted: then at least every handed-out value must verify (queryImpl) and the counts must agree (docImpl)
+		c.Tags = append(c.Tags, "accepted")
+	}
+	qj := make([]any, len(queries))
+	for i, q := range queries {
+		qj[i] = partsJ(q)
+	}
+	c.In = J{"h": hs.JSON, "ds": dsJ, "canon": canon, "queries": qj, "doc": string(doc)}
+	c.Impl = impl
+	c.Prop = propOf(why)
+	if dsJ == nil {
+		c.Op = "none"
+	}
+	setCurrent(nil, nil)
+	out.Emit(c)
+}
+
 func genC02(out *Out, r *Rng, tier string, n int, shard int) {
 	for i := 0; i < n; i++ {
 		g := NewDocGen(r, 1+r.Intn(3))
 		g.nativeInStr = true
 		root := g.node(g.sch.Root, 0, r.Bool())
+		if i%4 == 1 {
+			emitCollisionDoc(out, g, r, hPoseidon())
+		}
 		emitDocQ(out, g, root, randomPresentation(r), hPoseidon(), 40)
 		emitSmtStream(out, r, 8+r.Intn(40))
 	}
